@@ -205,7 +205,7 @@ def render(tag, spec):
         return None
     cl = w.add('clean %s %s 1' % (spec['sort'], hx(p)), ('summary-counts-every-skip-call', skip_total))
 
-    def oracle(line, raw, ww):
+    def oracle(line, raw, ww, cl=cl, first=True):
         before, after = parse_fs(ww.impl[ref]), parse_fs(raw)
         out = Line(ww.impl[cl]).out.decode('utf-8', 'replace')
         for fname, ents in (('zz_verif_harness_test.snap', entries1), (name2 + '.snap', entries2)):
@@ -221,7 +221,7 @@ def render(tag, spec):
             rule_protects = p != '' and gofuncs is not None and not any(re.search(p, f) for f in gofuncs)
             for t, k in ents:
                 if runs[t] and k == 9 and p == '' and pa in after:
-                    if ('• %s - 9\n' % t) not in out:
+                    if first and ('• %s - 9\n' % t) not in out:
                         return 'stale entry [%s - 9] of a test that merely shares a name prefix with a skipped test was protected' % t
                     continue
                 if runs[t]:
@@ -240,11 +240,19 @@ def render(tag, spec):
                     return 'file %s holding entries of a test that did not run (%s) was %s' % (fname, why, 'deleted' if pa not in after else 'listed as obsolete')
                 ids = [e[0].decode() for e in (parse_snap(after[pa]) or [])]
                 if tid not in ids or ('• %s\n' % tid) in out:
-                    if p and re.search(p, tid) and not selected[t]:
+                    # D7 is about an entry in a file the library EXAMINES (a running or partially skipped test registered
+                    # it, or the file-level rule does not reach it); a file that rule protects is not looked into at all
+                    examined = file_addressed or not rule_protects or any(spec.get('partial', {}).get(x, 0) > 0 and x in skip_calls for x, _ in ents)
+                    if p and re.search(p, tid) and not selected[t] and examined:
                         ww.meta['cls'] = 'D7'
                     return 'entry [%s] of a test that did not run (%s) was %s' % (tid, why, 'deleted' if tid not in ids else 'listed as obsolete')
         return None
     w.add('fsdump', ('non-run-tests-keep-their-snapshots', oracle))
+    if spec.get('twice', True):
+        # Clean called a second time in the same process (a TestMain that cleans, then cleans again with Sort): the
+        # skip list and the -run protection hold for every call
+        cl2 = w.add('clean %s %s 1' % ('1' if spec['sort'] == '-' else spec['sort'], hx(p)), ('summary-counts-every-skip-call', skip_total))
+        w.add('fsdump', ('non-run-tests-keep-their-snapshots-second-clean', lambda line, raw, ww: oracle(line, raw, ww, cl2, False)))
     return w
 
 
